@@ -487,3 +487,18 @@ func init() {
 		ruleD6c(c)
 	}
 }
+
+// extraClauses: clauses of the probe-derived rules, appended to the evidence explanation.
+var extraClauses = map[string][]string{
+	"C01": {"X5b/X1b: the hand-off primitives never report success for a send/receive that did not happen, a closed pipe reads as io.EOF, and a worker loop processes a value only when the producer returned no error"},
+	"C02": {"X5b/X1b/T1c: a closed pipe reads as io.EOF (no invented zero values), the processor sees only values returned without error, Close always closes, Next stores the value it read"},
+	"C04": {"X5b/T1c: ctx.Done() arms return an error (no silent success), Iterator.Close passes through doClose on every path"},
+	"C05": {"D10/D11/D5p: the tail pointer is reset when the last entry is unlinked, an append links from the old tail before the tail moves, popFront is only reached on a non-empty queue"},
+	"C06": {"X10: every *Front method works on root/root.next/dqNext and every *Back method on root.prev/dqPrev"},
+	"C08": {"K6/K7: Subscribe/Unsubscribe and the event loop agree on the channel roles; sendMsg is a two-arm select without default"},
+	"C14": {"V3: Done is Add(-1), Inc is Add(1)"},
+	"C16": {"D3k/X10: Stack.Pop moves head, length and ownership together; List's *Front/*Back methods use the end their name says"},
+	"C18": {"D6d/D6e: Equal compares sizes first; AddCheck inserts only after the presence test; DeleteCheck un-indexes on every path"},
+	"C19": {"H2/H1b: Equals compares every field; a bucket delta is mirrored in totalCount"},
+	"C20": {"D10/D11/D5p on the Queue's links (the iterator's `next != q.back` test relies on the tail reset)"},
+}
